@@ -212,7 +212,7 @@ RECIPES = {
         "assumptions": COMMON_ASSUME + ["the harness's own bookkeeping allocations are excluded by pausing the counter inside reader callbacks and projections"],
     },
     "C17": {
-        "custom": [STREAM_A],
+        "custom": [STREAM_A, behaviours.apalache_induction],
         "neg": {"quick": [NEG_STREAM[0], NEG_STREAM[6]]},
         "mc": {"quick": [("MC_Stream", "LIVE_Stream", 4)], "thorough": [("MC_Stream", "LIVE_Stream", 4)]},
         "level": "fault_enumeration",
